@@ -136,7 +136,7 @@ def rule_acc(S):
         if n['k'] == 'DeclStmt':
             for v in n.get('vars', []):
                 if 'init' in v:
-                    t = unc(term(lv, v['init']))
+                    t = unc(term(lv, v['init'], res=True))
                     if t[0] == 'call' and t[1] == 'std::get' and t[3] and t[3][0][0] == 'call' and \
                             t[3][0][1] == Y + 'value::get_gc_info':
                         src_ok = v['name']
@@ -182,7 +182,7 @@ def rule_lvl(S):
                             if v['name'] == t[3][1] and 'init' in v:
                                 ti = unc(term(it, v['init']))
                                 if ti[0] == 'bin' and ti[1] == '+' and ('const', 1) in (unc(ti[2]), unc(ti[3])) and \
-                                        any(x['k'] == 'MemberExpr' and x.get('name') == 'n_keys_' for x in it.walk(v['init'])):
+                                        any(x['k'] == 'MemberExpr' and x.get('name') == R.field_of(facts, Y + 'interior_node', 'std::atomic<unsigned char>', 'key count') for x in it.walk(v['init'])):
                                     bound = True
     S.ob('R-LVL', it.qname, 'children one level below', ok and bound,
          'children 0..n_keys are accounted at level + 1' if (ok and bound) else
